@@ -5,5 +5,6 @@ CONSTANTS
   Contexts = {1, 2, 3, 4, 7, 8, 9}
   DeepContexts = {1}
   Export = TRUE
+  StmtDepth = 2
 INVARIANT Inv
 CHECK_DEADLOCK FALSE
